@@ -28,10 +28,11 @@ type GConf struct {
 	Routes []string
 	Extra  []string // further lines / blocks, printed verbatim
 	VPN    *GVPN
+	VRF    string // IOS: all managed interfaces and routes belong to this VRF
 }
 
 func (c *GConf) clone() *GConf {
-	n := &GConf{Kind: c.Kind}
+	n := &GConf{VRF: c.VRF, Kind: c.Kind}
 	n.Intfs = append(n.Intfs, c.Intfs...)
 	for _, g := range c.Groups {
 		n.Groups = append(n.Groups, &GGroup{g.Name, append([]string{}, g.Members...)})
@@ -112,7 +113,11 @@ func (c *GConf) Text(device bool) string {
 		}
 	}
 	for i, n := range c.Intfs {
-		fmt.Fprintf(&b, "interface %s\n ip address 10.0.%d.1 255.255.255.0\n", n, i)
+		fmt.Fprintf(&b, "interface %s\n", n)
+		if c.VRF != "" {
+			fmt.Fprintf(&b, " ip vrf forwarding %s\n", c.VRF)
+		}
+		fmt.Fprintf(&b, " ip address 10.0.%d.1 255.255.255.0\n", i)
 		for _, bd := range c.Binds {
 			if bd[2] == n {
 				fmt.Fprintf(&b, " ip access-group %s %s\n", bd[0], bd[1])
@@ -355,7 +360,14 @@ func (g *Gen) Target() *GConf {
 					fmt.Sprintf("ip route 10.0.0.0 255.0.0.0 %s", gw))
 			}
 		}
-		if g.Kind == "ios" && !g.Small && g.Rng.Intn(3) == 0 {
+		if g.Kind == "ios" && !g.Small && g.Rng.Intn(4) == 0 {
+			// The whole managed part lives in one VRF; the device has
+			// another one that Netspoc does not know (see addUnmanaged).
+			c.VRF = "V1"
+			for i, r := range c.Routes {
+				c.Routes[i] = strings.Replace(r, "ip route ", "ip route vrf V1 ", 1)
+			}
+		} else if g.Kind == "ios" && !g.Small && g.Rng.Intn(3) == 0 {
 			// Routes of a VRF that Netspoc manages.
 			for i := 1 + g.Rng.Intn(3); i > 0; i-- {
 				a, _ := g.netAddr()
@@ -903,6 +915,18 @@ func (g *Gen) addUnmanaged(d *GConf) {
 	}
 	d.ACLs = append(d.ACLs, &GACL{"manual_acl", []string{"permit ip host 192.168.7.1 any", "deny ip any any"}})
 	d.ACLs = append(d.ACLs, &GACL{"mgmt_in", []string{"permit tcp host 192.168.7.1 any eq 22", "deny ip any any"}})
+	if d.VRF != "" {
+		// A VRF Netspoc does not know: interfaces bound to ACLs with
+		// generated names, and a static route.
+		d.ACLs = append(d.ACLs, &GACL{"kept_Vlan10_in-DRC-0", []string{"permit ip any host 10.0.10.1", "deny ip any any"}},
+			&GACL{"kept_Vlan11_in-DRC-0", []string{"permit ip any host 10.0.11.1", "deny ip any any"}})
+		d.Extra = append(d.Extra,
+			"interface Vlan10\n ip vrf forwarding 077\n ip address 10.0.10.1 255.255.255.0\n ip access-group kept_Vlan10_in-DRC-0 in",
+			"interface Vlan11\n ip vrf forwarding 077\n ip address 10.0.11.1 255.255.255.0\n ip access-group kept_Vlan11_in-DRC-0 in")
+		if g.Rng.Intn(2) == 0 {
+			d.Extra = append(d.Extra, "ip route vrf 077 0.0.0.0 0.0.0.0 10.0.10.254")
+		}
+	}
 	d.Extra = append(d.Extra,
 		"interface Loopback0\n ip address 192.168.9.1 255.255.255.255\n shutdown\n ip access-group mgmt_in in",
 		"snmp-server host 192.168.7.5 public",
